@@ -457,7 +457,7 @@ def run_ids(res, tier, seed):
     @settings(max_examples=n, deadline=None, database=None, suppress_health_check=list(hypothesis.HealthCheck), phases=[hypothesis.Phase.generate])
     @given(st.randoms(use_true_random=True), st.sampled_from(chainexec.CFGS[:3]))
     def p(rnd, cfg):
-        case = chainexec.gen_case(rnd, cfg, 8, 0.0, ["C01"], p_tx=0.8, zero_rewards=True, p_unusual=0.3, p_copy=0.3, p_same_cb=0.2, p_fork=0.6)
+        case = chainexec.gen_case(rnd, cfg, 8, 0.0, ["C01"], p_tx=0.8, zero_rewards=True, p_unusual=0.3, p_copy=0.3, p_same_cb=0.2, p_fork=0.6, p_binary_cbdata=0.4)
         r = chainexec.Run(case, ("C07",))
         r.execute()
         path = os.path.join(env.fresh_subdir("c07"), "c.db")
